@@ -16,7 +16,7 @@ EXTRA_KEYS = ['role', 'team']
 
 
 def ns_table(W):
-    nss = {n['name']: dict(n['labels']) for n in W['namespaces']}
+    nss = {n['name']: (dict(n['labels']) if n['obj'] else {}) for n in W['namespaces']}   # labels exist only if the Namespace object is part of the input
     for w in W['workloads']:
         nss.setdefault(w['ns'], {})
     for p in W['netpols']:
